@@ -160,3 +160,84 @@ func lastResStr(f string) string        { return "" }
 //@   opt track HTMLEscape
 //@   requires len(s) <= 1<<37
 //@   ensures called("HTMLEscape") && lastArgStr("HTMLEscape", 0) == s && string(result) == lastResStr("HTMLEscape")
+
+// ---------------------------------------------------------------------------
+// QueryEscape (C25): "escapes the string so it can be safely placed inside a
+// URL query": every byte except the ASCII letters, digits, '-', '.', '_' is
+// replaced by its %XX triplet (lower-case hexadecimal) and nothing else is
+// changed. The result is the fold of that per-byte replacement.
+// ---------------------------------------------------------------------------
+
+type bseq string
+
+func cat(a, b bseq) bseq                          { return a + b }
+func sub[T string | []byte](x T, lo, hi int) bseq { return bseq(x[lo:hi]) }
+func lit[T string | []byte](x T) bseq             { return bseq(x) }
+func fsplit(lo, mid, hi int) bool                 { return true }
+
+var specHexDigit = [16]string{"0", "1", "2", "3", "4", "5", "6", "7", "8", "9", "a", "b", "c", "d", "e", "f"}
+
+func specQueryKept(c byte) bool {
+	return '0' <= c && c <= '9' || 'a' <= c && c <= 'z' || 'A' <= c && c <= 'Z' || c == '-' || c == '.' || c == '_'
+}
+
+func specPieceQuery(s string, k int) string {
+	c := s[k]
+	if specQueryKept(c) {
+		return ""
+	}
+	return "%" + specHexDigit[c>>4] + specHexDigit[c&0xF]
+}
+
+func specHexCount(s string, k int) int {
+	if specQueryKept(s[k]) {
+		return 0
+	}
+	return 1
+}
+
+func EscQuery(s string, lo, hi int) bseq {
+	var b []byte
+	for k := lo; k < hi; k++ {
+		if p := specPieceQuery(s, k); p != "" {
+			b = append(b, p...)
+		} else {
+			b = append(b, s[k])
+		}
+	}
+	return bseq(b)
+}
+
+func HexCount(s string, lo, hi int) int {
+	n := 0
+	for k := lo; k < hi; k++ {
+		n += specHexCount(s, k)
+	}
+	return n
+}
+
+//@ fold EscQuery piece specPieceQuery
+//@ sum HexCount term specHexCount bounds 0 1
+
+// (The buffer is up to 3 len(s) long; the verifier's slices stop at 2^40 elements.)
+//@ func QueryEscape
+//@   props C25
+//@   requires len(s) <= 1<<38
+//@   ensures lit(result) == EscQuery(s, 0, len(s))
+//@   loop 0
+//@     invariant 0 <= i && i <= len(s) && 0 <= last && last <= i
+//@     invariant numHex == HexCount(s, 0, i) && numHex == HexCount(s, 0, last) && numHex >= 0
+//@     invariant numHex == 0 ==> last == 0
+//@     invariant HexCount(s, last, i) == 0 && EscQuery(s, last, i) == sub(s, last, i)
+//@     split 0, i, i+1; last, i, i+1
+//@     decreases len(s) - i
+//@   loop 1
+//@     invariant 0 <= i && i <= last && last <= len(s)
+//@     invariant len(b) == len(s)+2*numHex && numHex == HexCount(s, 0, last) && numHex == HexCount(s, 0, len(s))
+//@     invariant j == i+2*HexCount(s, 0, i)
+//@     invariant sub(b, 0, j) == EscQuery(s, 0, i)
+//@     invariant EscQuery(s, last, len(s)) == sub(s, last, len(s))
+//@     split 0, i, i+1; 0, i, last; i, i+1, last; 0, i+1, last
+//@     split 0, j, j+1; 0, j, j+3; j, j+1, j+3; j+1, j+2, j+3
+//@     decreases last - i
+//@   split 0, last, len(s); 0, j, len(b)
